@@ -1,6 +1,6 @@
 (** C10 — Mann-Kendall trend follows its definition and symmetries. Statements only. *)
 From HDC Require Import Base.Prelude Model.Calib Model.MK Proofs.MKProofs Proofs.MKReal.
-From Coq Require Import Reals Sorting.Permutation.
+From Coq Require Import Reals Sorting.Permutation Sorting.Sorted.
 Open Scope Z_scope.
 
 (** the double loop with its two counters computes S = sum_{k<kk} sign(x[kk] - x[k]) *)
@@ -13,6 +13,18 @@ Theorem C10_tau_range : forall x,
   let n := Z.of_nat (length x) in - (n * (n - 1)) <= 2 * mk_s x <= n * (n - 1).
 Proof. exact mk_s_bound. Qed.
 Print Assumptions C10_tau_range.
+
+(** the bounds are attained exactly by the monotone series: tau = 1 for a strictly increasing series,
+    tau = -1 for a strictly decreasing one, and S = 0 for a constant one *)
+Theorem C10_tau_extremes : forall x,
+  let n := Z.of_nat (length x) in
+  (StronglySorted Z.lt x -> 2 * mk_s x = n * (n - 1)) /\
+  (StronglySorted Z.gt x -> 2 * mk_s x = - (n * (n - 1))) /\
+  (forall c, Forall (fun b => b = c) x -> mk_s x = 0).
+Proof.
+  intros x. split; [exact (mk_s_increasing x)|split; [exact (mk_s_decreasing x)|intros c; exact (mk_s_constant c x)]].
+Qed.
+Print Assumptions C10_tau_extremes.
 
 (** tie-corrected variance numerator: n(n-1)(2n+5) - sum over tie groups t(t-1)(2t+5), and the
     tie-free shortcut of the code agrees with it; any duplicate-free enumeration of the values works *)
